@@ -813,7 +813,44 @@ Qed.
 Lemma Ok_inj {A} (a b : A) : Ok a = Ok b -> a = b.
 Proof. congruence. Qed.
 
-Set Default Timeout 20.
+Lemma al_selflen env aw a (a0 : list N) :
+  ceval env (Ok (N.of_nat (wbytes W16) + N.of_nat (length (enc W32 a ++ a0)))) (CE aw (ESub ESelfLen (ELit 6))) = Ok a ->
+  a = N.of_nat (length a0).
+Proof.
+  rewrite of_nat_app, length_enc. generalize (N.of_nat (length a0)). intros n.
+  unfold ceval. cbn [ce_aw ce_e eval bind wbytes].
+  destruct (N.of_nat 2 + (N.of_nat 4 + n) <? 4294967296); cbn [bind]; [|discriminate].
+  destruct (6 <=? N.of_nat 2 + (N.of_nat 4 + n)); [|discriminate].
+  intros H. apply Ok_inj in H. lia.
+Qed.
+
+Lemma al_lin env aw c k x (l : list val) a :
+  lookup env x = Some (VL l) ->
+  ceval env Err (CE aw (EAdd (ELit c) (EMul (ELit k) (ELen x)))) = Ok a \/
+  (exists sl, ceval env sl (CE aw (EAdd (ELit c) (EMul (ELit k) (ELen x)))) = Ok a) ->
+  a = c + k * N.of_nat (length l).
+Proof.
+  intros Hl [H|(sl & H)]; unfold ceval in H; cbn [ce_aw ce_e eval] in H; rewrite Hl in H; cbn [bind] in H;
+    (destruct (k * N.of_nat (length l) <? 2 ^ aw); [|discriminate]); cbn [bind] in H;
+    (destruct (c + k * N.of_nat (length l) <? 2 ^ aw); [|discriminate]); apply Ok_inj in H; auto.
+Qed.
+
+Lemma al_vec D f ev y w cw sp vs' r :
+  write_fields (write_sty D f) ev [FMut y (Vec (Prim w) (VCount cw)) None sp] vs' = Ok r ->
+  exists l, vs' = [VL l] /\ N.of_nat (length r) = N.of_nat (wbytes cw) + N.of_nat (wbytes w) * N.of_nat (length l)
+            /\ exists body, r = enc cw (N.of_nat (length l)) ++ body /\ length body = (wbytes w * length l)%nat.
+Proof.
+  intros H. cbn [write_fields] in H. destruct vs' as [|v vs']; [discriminate|].
+  apply bind_ok in H as (b1 & Hb1 & H). apply bind_ok in H as (b2 & Hb2 & H).
+  apply Ok_inj in H. subst r. destruct vs'; [|discriminate]. apply Ok_inj in Hb2. subst b2.
+  rewrite app_nil_r. cbn [write_ty] in Hb1. destruct v as [|l| |]; try discriminate.
+  apply bind_ok in Hb1 as (b3 & Hb3 & Hb1). apply Ok_inj in Hb1. subst b1.
+  pose proof (concat_prim_len _ _ _ _ _ Hb3) as E.
+  exists l. split; [reflexivity|]. split.
+  - rewrite of_nat_app, length_enc, E. lia.
+  - exists b3. auto.
+Qed.
+
 Lemma attr_len_fields D f tw fs vs sl fb : attr_len_ok tw fs = true ->
   write_fields (write_sty D f) (ceval (bind_fields fs vs) sl) fs vs = Ok fb ->
   sl = Ok (N.of_nat (wbytes tw) + N.of_nat (length fb)) ->
@@ -825,12 +862,13 @@ Proof.
   destruct rest as [|[x0 w0 [aw e]|y t nw sp] rest']; try discriminate.
   - (* a const *)
     destruct w0; try discriminate.
-    cbn [write_fields] in Hw'. bind_inv Hw'. bind_inv Hw'. apply Ok_inj in Hw'. subst fb.
+    cbn [write_fields] in Hw'. apply bind_ok in Hw' as (a & Ha & Hw'). apply bind_ok in Hw' as (a0 & Ha0 & Hw').
+    apply Ok_inj in Hw'. subst fb.
     exists a0. enough (E : a = N.of_nat (length a0)) by (rewrite E; reflexivity).
     destruct e as [m| | | |e1 e2|e1 e2|]; try discriminate.
     + (* literal *)
       destruct (fixed_size rest') as [n|] eqn:Ef; [|discriminate]. apply N.eqb_eq in Hok. subst n.
-      unfold ceval in Ha. cbn [ce_aw ce_e eval] in Ha. injection Ha as <-.
+      rewrite (lit_eval (CE aw (ELit m)) m _ _ eq_refl) in Ha. apply Ok_inj in Ha. subst a.
       symmetry. eapply fixed_size_len; eauto.
     + (* c + k * x.len() *)
       destruct e1 as [c| | | | | |]; try discriminate.
@@ -844,39 +882,22 @@ Proof.
       match goal with H : negb _ = true |- _ => apply negb_true_iff in H; rename H into Hn end.
       match goal with H : (k =? _) = true |- _ => apply N.eqb_eq in H; rename H into Hk end.
       match goal with H : (c =? _) = true |- _ => apply N.eqb_eq in H; rename H into Hc end.
-      cbn [write_fields] in Ha0. destruct vs' as [|v vs']; [discriminate|].
-      apply bind_ok in Ha0 as (b1 & Hb1 & Ha0). apply bind_ok in Ha0 as (b2 & Hb2 & Ha0).
-      apply Ok_inj in Ha0. subst a0.
-      destruct vs'; [|discriminate]. apply Ok_inj in Hb2. subst b2. rewrite app_nil_r.
-      cbn [write_ty] in Hb1. destruct v as [|l| |]; try discriminate.
-      apply bind_ok in Hb1 as (b3 & Hb3 & Hb1). apply Ok_inj in Hb1. subst b1.
-      rewrite of_nat_app, length_enc, (concat_prim_len _ _ _ _ _ Hb3).
-      unfold ceval in Ha. cbn [ce_aw ce_e eval] in Ha.
-      rewrite (Hlk _ Hn) in Ha. cbn [bind_fields lookup] in Ha. rewrite Hok in Ha.
-      cbn [bind] in Ha.
-      destruct (k * N.of_nat (length l) <? 2 ^ aw); [|discriminate]. cbn [bind] in Ha.
-      destruct (c + k * N.of_nat (length l) <? 2 ^ aw); [|discriminate]. injection Ha as <-.
-      subst c k. lia.
+      destruct (al_vec _ _ _ _ _ _ _ _ _ Ha0) as (l & -> & Hlen & _).
+      assert (Hx : lookup (bind_fields fs vs) x = Some (VL l)).
+      { rewrite (Hlk _ Hn). cbn [bind_fields lookup]. rewrite Hok. reflexivity. }
+      rewrite (al_lin _ _ _ _ _ _ _ Hx (or_intror (ex_intro _ sl Ha))). rewrite Hlen. subst c k. reflexivity.
     + (* this._len() - 6 *)
       destruct e1; try discriminate. destruct e2 as [six| | | | | |]; try discriminate.
       apply andb_true_iff in Hok as [Hsix Hok]. apply N.eqb_eq in Hsix. subst six.
       destruct tw; try discriminate.
-      unfold ceval in Ha. cbn [ce_aw ce_e eval] in Ha. rewrite Hsl in Ha. cbn [bind] in Ha.
-      match type of Ha with context [if ?c then _ else _] => destruct c; [|discriminate] end.
-      cbn [bind] in Ha.
-      match type of Ha with context [if ?c then _ else _] => destruct c; [|discriminate] end.
-      apply Ok_inj in Ha. rewrite of_nat_app, length_enc in Ha. cbn [wbytes] in Ha. lia.
+      rewrite Hsl in Ha. eapply al_selflen. exact Ha.
   - (* no const: a u32-counted vector of bytes is the whole rest *)
     destruct t as [|[[| |]|] [[| |]|]]; try discriminate.
     destruct nw; try discriminate. destruct rest'; try discriminate.
-    cbn [write_fields] in Hw'. destruct vs' as [|v vs']; [discriminate|].
-    apply bind_ok in Hw' as (b1 & Hb1 & Hw'). apply bind_ok in Hw' as (b2 & Hb2 & Hw').
-    apply Ok_inj in Hw'. subst fb. destruct vs'; [|discriminate]. apply Ok_inj in Hb2. subst b2.
-    rewrite app_nil_r. cbn [write_ty] in Hb1. destruct v as [|l| |]; try discriminate.
-    apply bind_ok in Hb1 as (b3 & Hb3 & Hb1). apply Ok_inj in Hb1. subst b1. exists b3.
-    replace (N.of_nat (length b3)) with (N.of_nat (length l)); [reflexivity|].
-    rewrite (concat_prim_len _ _ _ _ _ Hb3). cbn [wbytes]. lia.
-Qed.
+    destruct (al_vec _ _ _ _ _ _ _ _ _ Hw') as (l & _ & _ & body & -> & Hb).
+    exists body. replace (N.of_nat (length body)) with (N.of_nat (length l)); [reflexivity|].
+    rewrite Hb. cbn [wbytes]. lia.
+Time Qed.
 
 (* for an enum all of whose variants pass the symbolic check: whatever value is written, the four
    bytes after the tag hold the number of bytes that follow them (mod 2^32, which is exact for
